@@ -676,3 +676,122 @@ def d5_12(ctx):
         if ids.get(prefix + "Counter") != 22 or len(ids) != 5:
             diffs.append(f"name->id cache {ids}")
         ctx.check(not diffs, key, fn, f"symbol list classified as documented (program={program})", f"symbol classification deviates: {diffs[:3]}", program=str(program))
+
+
+@rule(P, "D5.13", "T-WITNESS", floor=6)
+def d5_13(ctx):
+    """_parse_template_data folded on witness templates (sa/miniinterp.py; the member-record parser, StructTag and
+    FixedSizeString are witnesses): the structure's name is the text before the first ';' (predefined types: the first
+    name; ASCIISTRING82 is STRING), names and member records pair positionally, host members (ZZZZZZZZZZ*, __*, unnamed,
+    predefined CTL/Control) stay out of `attributes` but keep their record, BOOL members become bit aliases and all others
+    placed members with their offsets, [LEN, DATA(SINT array)] is a string of capacity structure_size - 4, and the
+    user-defined range is exactly 0x100..0xEFF."""
+    from ..miniinterp import Obj, run_function
+
+    lx = _lx(ctx)
+    fn = lx.methods["_parse_template_data"]
+    tml = ctx.folder.module_value(lx.module.name, "TEMPLATE_MEMBER_INFO_LEN")
+    if not isinstance(tml, int):
+        ctx.undecided(ckey(lx.key + "._parse_template_data", "witness"), fn, "TEMPLATE_MEMBER_INFO_LEN is not a constant")
+        return
+
+    def rec(name, offset, **kw):
+        d = {"offset": offset, "tag_type": "atomic", "data_type": name, "data_type_name": name, "type_class": ("tc", name)}
+        d.update(kw)
+        return d
+
+    def run(label, st, names, records, size, expect):
+        table = {bytes([i + 1]) * tml: r for i, r in enumerate(records)}
+        data = b"".join(table) + b"\x00".join(n.encode() for n in names)
+        template = {"member_count": len(records), "structure_size": size, "object_definition_size": 99, "structure_handle": 7}
+
+        def hook(call, env, it):
+            path = attr_path(call.func) or ""
+            name = call_name(call) or ""
+            if path == "self._parse_template_data_member_info":
+                chunk = it.ev(call.args[0], env)
+                return dict(table[chunk]) if isinstance(chunk, bytes) and chunk in table else ("bad-chunk", chunk)
+            if name in ("StructTag", "FixedSizeString"):
+                args = []
+                for a in call.args:
+                    if isinstance(a, ast.Starred):
+                        args.extend(it.ev(a.value, env))
+                    else:
+                        args.append(it.ev(a, env))
+                return (name, tuple(args), {k.arg: it.ev(k.value, env) for k in call.keywords})
+            if isinstance(call.func, ast.Subscript):
+                f = it.ev(call.func, env)
+                if isinstance(f, tuple) and f and f[0] == "tc":
+                    return ("member", f[1], it.ev(call.args[0], env))
+            return UNKNOWN
+
+        key = ckey(lx.key + "._parse_template_data", f"witness:{label}")
+        kind, res = run_function(ctx, lx.module, fn, {"self": Obj(), fn.args.args[1].arg: data, fn.args.args[2].arg: template, fn.args.args[3].arg: st}, call_hook=hook, deep=False)
+        if kind == "unknown":
+            ctx.undecided(key, fn, f"_parse_template_data not foldable on {label}: {res}")
+            return
+        if kind != "return" or not isinstance(res, dict):
+            ctx.violation(key, fn, f"template {label} gives {kind} {res!r} instead of a structure definition")
+            return
+        diffs = []
+        for k, v in expect.items():
+            if k == "internal":
+                got = res.get("internal_tags")
+                if not isinstance(got, dict) or list(got) != [n for n, _ in v] and len(got) != len(v):
+                    diffs.append(f"internal_tags keys {list(got) if isinstance(got, dict) else got!r} (expected {len(v)} members)")
+                else:
+                    for (n, i), (gk, gv) in zip(v, got.items()):
+                        if n is not None and gk != n:
+                            diffs.append(f"member {n!r} recorded as {gk!r}")
+                        elif not isinstance(gv, dict) or gv.get("offset") != records[i]["offset"] or gv.get("data_type_name") != records[i]["data_type_name"]:
+                            diffs.append(f"member {gk!r} carries record {gv!r} (expected record #{i})")
+                        if n is None and not str(gk).startswith("__"):
+                            diffs.append(f"unnamed member named {gk!r} (visible)")
+            elif k == "type_class":
+                got = res.get("type_class")
+                if v[0] == "FixedSizeString":
+                    if not (isinstance(got, tuple) and got[0] == "FixedSizeString" and got[1] == (v[1],)):
+                        diffs.append(f"type_class {got!r} (expected FixedSizeString({v[1]}))")
+                else:
+                    _, members, bits, private = v
+                    if not (isinstance(got, tuple) and got[0] == "StructTag"):
+                        diffs.append(f"type_class {got!r} (expected a StructTag)")
+                        continue
+                    gm = [(m[1], m[2] if not str(m[2]).startswith("__unknown") else None, off) for m, off in got[1] if isinstance(m, tuple) and len(m) == 3]
+                    if gm != members or len(gm) != len(got[1]):
+                        diffs.append(f"placed members {got[1]!r} (expected {members!r})")
+                    if got[2].get("bit_members") != bits:
+                        diffs.append(f"bit members {got[2].get('bit_members')!r} (expected {bits!r})")
+                    if got[2].get("struct_size") != size:
+                        diffs.append(f"struct_size {got[2].get('struct_size')!r} (expected {size})")
+                    gp = got[2].get("private_members")
+                    gp_named = {x for x in gp if not str(x).startswith("__unknown")} if isinstance(gp, (set, frozenset, list, tuple)) else gp
+                    if gp_named != private[0] or len(gp) != private[1]:
+                        diffs.append(f"private members {gp!r} (expected {private!r})")
+            elif k == "no-string":
+                if "string" in res:
+                    diffs.append(f"marked as a string of {res['string']!r}")
+            elif res.get(k) != v:
+                diffs.append(f"{k}={res.get(k)!r} (expected {v!r})")
+        if res.get("template") != template:
+            diffs.append("template attributes not carried")
+        ctx.check(not diffs, key, fn, f"{label}: {({k: v for k, v in expect.items() if k not in ('internal', 'type_class')})}", f"structure definition for {label} deviates: {diffs[:3]}", witness=label)
+
+    host = "ZZZZZZZZZZMyUdt0"
+    run("user UDT 0x123", 0x8123, ["MyUdt;n;Ex", host, "Flag", "Value", "", "Arr", "", "Last", ""],
+        [rec("SINT", 0), rec("BOOL", 0, bit=0), rec("DINT", 4, array=0), rec("SINT", 8, array=0), rec("INT", 12, array=4), rec("SINT", 20, array=0), rec("REAL", 24, array=0)], 28,
+        {"name": "MyUdt", "attributes": ["Flag", "Value", "Arr", "Last"], "no-string": True,
+         "internal": [(host, 0), ("Flag", 1), ("Value", 2), (None, 3), ("Arr", 4), (None, 5), ("Last", 6)],
+         "type_class": ("StructTag", [("SINT", host, 0), ("DINT", "Value", 4), ("SINT", None, 8), ("INT", "Arr", 12), ("SINT", None, 20), ("REAL", "Last", 24)], {"Flag": (0, 0)}, ({host}, 3))})
+    run("string UDT", 0x8234, ["MyStr;x", "LEN", "DATA", ""], [rec("DINT", 0, array=0), rec("SINT", 4, array=20)], 24,
+        {"name": "MyStr", "attributes": ["LEN", "DATA"], "string": 20, "internal": [("LEN", 0), ("DATA", 1)], "type_class": ("FixedSizeString", 20)})
+    run("[LEN, DATA] with DINT data", 0x8235, ["NotStr;x", "LEN", "DATA", ""], [rec("DINT", 0, array=0), rec("DINT", 4, array=20)], 84,
+        {"name": "NotStr", "attributes": ["LEN", "DATA"], "no-string": True, "type_class": ("StructTag", [("DINT", "LEN", 0), ("DINT", "DATA", 4)], {}, (set(), 0))})
+    run("predefined TIMER 0xF83", 0x8F83, ["TIMER", "CTL", "PRE", "ACC", "EN", ""], [rec("DINT", 0, array=0), rec("DINT", 4, array=0), rec("DINT", 8, array=0), rec("BOOL", 0, bit=31)], 12,
+        {"name": "TIMER", "attributes": ["PRE", "ACC", "EN"], "no-string": True, "internal": [("CTL", 0), ("PRE", 1), ("ACC", 2), ("EN", 3)],
+         "type_class": ("StructTag", [("DINT", "CTL", 0), ("DINT", "PRE", 4), ("DINT", "ACC", 8)], {"EN": (0, 31)}, ({"CTL"}, 1))})
+    run("builtin STRING", 0x8FCE, ["ASCIISTRING82", "LEN", "DATA", ""], [rec("DINT", 0, array=0), rec("SINT", 4, array=82)], 88,
+        {"name": "STRING", "attributes": ["LEN", "DATA"], "string": 82, "type_class": ("FixedSizeString", 84)})
+    for st, visible in ((0x80FF, False), (0x8100, True), (0x8EFF, True), (0x8F00, False)):
+        run(f"range boundary {st & 0xFFF:#05x}", st, ["Edge;1", "CTL", "Control", "X", ""], [rec("DINT", 0, array=0), rec("DINT", 4, array=0), rec("DINT", 8, array=0)], 12,
+            {"name": "Edge", "attributes": ["CTL", "Control", "X"] if visible else ["X"]})
